@@ -68,6 +68,10 @@ type Document struct {
 	// generation, see invalidateCaches.
 	families           FamilyNodes
 	familiesGeneration int64
+
+	// The families are collected on demand, which can happen from several
+	// goroutines at the same time.
+	familiesMutex sync.Mutex
 }
 
 // String will render the entire GEDCOM document.
@@ -136,6 +140,9 @@ func (doc *Document) NodeByPointer(ptr string) Node {
 
 // Families returns the family entities in the document.
 func (doc *Document) Families() (families FamilyNodes) {
+	doc.familiesMutex.Lock()
+	defer doc.familiesMutex.Unlock()
+
 	generation := currentCacheGeneration()
 	if doc.families != nil && doc.familiesGeneration == generation {
 		return doc.families
